@@ -62,6 +62,19 @@ type Ctx struct {
 	Asserts  int
 	mu       sync.Mutex
 	rnd      kyber.XOF
+	quiet    bool
+}
+
+// ConcreteOnly runs f only on the real suites (checks that need the concrete
+// arithmetic, e.g. crypto/ed25519 compatibility). Outcomes inside f are not part
+// of the compared trace; failures are reported as failures of the real code.
+func (c *Ctx) ConcreteOnly(f func()) {
+	if c.Symbolic {
+		return
+	}
+	c.quiet = true
+	defer func() { c.quiet = false }()
+	f()
 }
 
 func (c *Ctx) fail(id, kind, detail string) {
@@ -72,6 +85,9 @@ func (c *Ctx) fail(id, kind, detail string) {
 
 // Outcome records a control-flow outcome; the symbolic and the concrete run must produce the same sequence.
 func (c *Ctx) Outcome(id string, v any) {
+	if c.quiet {
+		return
+	}
 	c.mu.Lock()
 	c.Trace = append(c.Trace, fmt.Sprintf("%s=%v", id, v))
 	c.mu.Unlock()
@@ -438,9 +454,19 @@ func Main(property string, gen func(tier string, seed int64) []Scenario) {
 			for _, f := range rc.c.Fails {
 				concFail[f.Assert] = true
 			}
+			symFail := map[string]bool{}
 			for _, f := range rs.c.Fails {
 				f.Reproduced = concFail[f.Assert]
+				symFail[f.Assert] = true
 				rep.Failures = append(rep.Failures, f)
+			}
+			// a failure seen only on the real suites is a failure of the real code all the same
+			for _, f := range rc.c.Fails {
+				if !symFail[f.Assert] {
+					f.Reproduced = true
+					f.Kind = "concrete-only " + f.Kind
+					rep.Failures = append(rep.Failures, f)
+				}
 			}
 			if rs.panicked != "" {
 				rep.Failures = append(rep.Failures, Failure{Key: key + "|panic", Scenario: sc.Name, Cfg: sc.Cfg, Assert: "panic", Kind: "panic", Detail: rs.panicked, Reproduced: rc.panicked != ""})
